@@ -5,13 +5,24 @@ import HcipyVerif.Model.Aperture
 Line-protocol front end of the C12 model.
 
 ```
-C12 eval  sep|pts <tol> <xs> <ys> <shape…>   →  ok <values> <near flags> <path==pointwise 0/1>
-C12 super <nx> <ny> <tol> <xs> <ys> <shape…> →  ok <means> <near flags>   |  err index
+C12 eval  sep|pts|polar <tol> <xs> <ys> <shape…> →  ok <values> <near flags> <path==pointwise 0/1> [polar: <#points where diskAgree fails away from a boundary>]
+C12 super <nx> <ny> <tol> <xs> <ys> <shape…>     →  ok <means> <near flags>  |  err index  |  err zerodiv
+C12 superstat mean|sum|min|max <nx> <ny> <tol> <xs> <ys> <shape…>   →  as `super`, for the given statistic
+C12 superlist <stat> <nx> <ny> <tol> <xs> <ys> <n> <shape 1> … <shape n>   →  ok <values 1> <flags 1> … | err …
+C12 regsub sep <tol> <xs> <ys> <even> <r> <a> <dirs> <cx> <cy>
+        →  ok some <y0> <x0> <nr> <nc> <f_sub ravelled> <near flags> <edge 0/1>  |  ok none <edge 0/1>
+C12 regsub pts <tol> <xs> <ys> <even> <r> <a> <dirs> <cx> <cy>
+        →  ok <mask> <f_sub> <near flags of the masked points> <near-the-box flags of all points>
+C12 keck sep|pts|polar …      C12 vlt sep|pts|polar <tol> <xs> <ys> <segment|-> <ro> <ri> <spiders> <start/end points> <m3>
 ```
 `sep`: `xs`, `ys` are the axes of a separated grid (the fast code path is run);
-`pts`: `xs`, `ys` are the coordinate arrays of an unstructured grid (the slow path is run).
+`pts`: `xs`, `ys` are the coordinate arrays of an unstructured grid (the slow path is run);
+`polar`: `xs` are the radii, `ys` the interleaved direction cosines `[c0,s0,c1,s1,…]` of a polar grid
+(the polar path `evalPolar` is run).
+`regsub` reports what `make_regular_polygon_aperture(...)(grid, return_with_mask=True)` returns: the
+bounding slices and the sub-array (fast path) resp. the boolean mask and the masked values (slow path).
 Shapes are written in prefix notation:
-`circle r cx cy | ellipse cM sM cm sm cx cy mn | rect hx hy cx cy | regpoly even r a [c0,s0,…] cx cy |
+`disk r | halfplane gt a b c | circle r cx cy | ellipse cM sM cm sm cx cy mn | rect hx hy cx cy | regpoly even r a [c0,s0,…] cx cy |
  irrpoly [x0,y0,…] hx hy bx by | spider sx sy c s hl hw | spiderinf px py c s hw | const v |
  compl S | mul S S | sub S S | rot c s S | shift dx dy S | seg [px,py,t,…] S`
 -/
@@ -42,6 +53,16 @@ def parseShape? : Nat → List String → Option (Shape × List String)
     | "circle" => do
       let ([r, cx, cy], rest) ← rats? rest 3 | none
       pure (.circle r cx cy, rest)
+    | "disk" => do
+      let ([r], rest) ← rats? rest 1 | none
+      pure (.disk r, rest)
+    | "halfplane" =>
+      match rest with
+      | g :: rest => do
+        let g ← (if g == "1" then some true else if g == "0" then some false else none)
+        let ([a, b, c], rest) ← rats? rest 3 | none
+        pure (.halfplane g a b c, rest)
+      | _ => none
     | "ellipse" => do
       let ([a, b, c, d, cx, cy, mn], rest) ← rats? rest 7 | none
       pure (.ellipse a b c d cx cy mn, rest)
@@ -102,6 +123,19 @@ def parseShape? : Nat → List String → Option (Shape × List String)
     | _ => none
   | _, [] => none
 
+/-- several shapes one after the other -/
+def parseShapes? : Nat → List String → Option (List Shape)
+  | _, [] => some []
+  | 0, _ => none
+  | fuel + 1, toks => do
+    let (s, rest) ← parseShape? 1000 toks
+    let ss ← parseShapes? fuel rest
+    pure (s :: ss)
+
+def parseStat? (stat : String) : Option Stat :=
+  if stat == "mean" then some .mean else if stat == "sum" then some .sum
+  else if stat == "min" then some .min else if stat == "max" then some .max else none
+
 def parseWhole? (toks : List String) : Option Shape :=
   match parseShape? 1000 toks with
   | some (s, []) => some s
@@ -117,6 +151,56 @@ def evalResp (st : St) (mode : String) (tol : Rat) (xs ys : List Rat) (s : Shape
     let pts := xs.zip ys
     let vals := evalPts s pts
     (st, s!"ok {showRatList vals} {showList showBool (pts.map (near tol s))} {showBool (vals == pts.map (val s))}")
+  else if mode == "polar" then
+    match pairs? ys with
+    | some dirs =>
+      if xs.length != dirs.length then (st, "bad-op") else
+      let qs : List PPt := (xs.zip dirs).map fun q => (q.1, q.2.1, q.2.2)
+      let pts := qs.map toCart
+      let vals := evalPolar s qs
+      -- `evalPolar = map val ∘ toCart` is a theorem for exact unit direction vectors (`PolarPt`); the floats cos θ,
+      -- sin θ are not.  What holds for them is `polar_path_eq_inside_float`: equality wherever `diskAgree` holds.
+      -- The flag is that conclusion; the extra field counts the points where `diskAgree` fails although the point
+      -- is not within `tol` of a decision boundary (must be 0 for radii ≥ 0: `polar_float_rim`).
+      let nearF := pts.map (near tol s)
+      let agree := qs.map (diskAgree s)
+      let self := vals.length == pts.length &&
+        (vals.zip (pts.zip agree)).all fun (v, p, a) => !a || v == val s p
+      let slack := ((agree.zip nearF).filter fun (a, n) => !a && !n).length
+      (st, s!"ok {showRatList vals} {showList showBool nearF} {showBool self} {slack}")
+    | none => (st, "bad-op")
+  else (st, "bad-op")
+
+def sixes? : List Rat → Option (List SpiderC)
+  | [] => some []
+  | a :: b :: c :: d :: e :: f :: t => (sixes? t).map ((a, b, c, d, e, f) :: ·)
+  | _ => none
+
+def fours? : List Rat → Option (List (Pt × Pt))
+  | [] => some []
+  | a :: b :: c :: d :: t => (fours? t).map (((a, b), (c, d)) :: ·)
+  | _ => none
+
+def parseBool? (s : String) : Option Bool :=
+  if s == "1" then some true else if s == "0" then some false else none
+
+/-- the regular polygon's `return_with_mask=True` results -/
+def regsubResp (st : St) (mode : String) (tol : Rat) (xs ys : List Rat) (even : Bool) (r a : Rat)
+    (dirs : List (Rat × Rat)) (cx cy : Rat) : St × String :=
+  let shape := Shape.regpoly even r a dirs cx cy
+  if mode == "sep" then
+    let edge := xs.any (fun x => nearLin tol r (rabs (x - cx))) || ys.any (fun y => nearLin tol r (rabs (y - cy)))
+    match regpolySub even r a dirs (xs.map (· - cx)) (ys.map (· - cy)) with
+    | none => (st, s!"ok none {showBool edge}")
+    | some sub =>
+      let nearF : Arr Bool := ⟨sub.F.nr, sub.F.nc, fun i j => near tol shape (xs.getD (sub.x0 + j) 0, ys.getD (sub.y0 + i) 0)⟩
+      (st, s!"ok some {sub.y0} {sub.x0} {sub.F.nr} {sub.F.nc} {showRatList sub.F.ravel} {showList showBool nearF.ravel} {showBool edge}")
+  else if mode == "pts" then
+    if xs.length != ys.length then (st, "bad-op") else
+    let pts := xs.zip ys
+    let (fsub, m) := regpolySlowSub even r a dirs cx cy pts
+    let nearBox := pts.map fun p => nearLin tol r (rabs (p.1 - cx)) || nearLin tol r (rabs (p.2 - cy))
+    (st, s!"ok {showList showBool m} {showRatList fsub} {showList showBool ((compress m pts).map (near tol shape))} {showList showBool nearBox}")
   else (st, "bad-op")
 
 def step (st : St) : List String → St × String
@@ -133,6 +217,35 @@ def step (st : St) : List String → St × String
       if trs.length != (hexQR rings).length then (st, "bad-op") else
       evalResp st mode tol xs ys (keckShape rings pitch ap segR segA dirs trs obsR sp hw)
     | _, _, _, _, _, _, _, _ => (st, "bad-op")
+  | ["regsub", mode, tol, xs, ys, even, r, a, dirs, cx, cy] =>
+    match parseRat? tol, parseRatList? xs, parseRatList? ys, parseBool? even, [r, a, cx, cy].mapM parseRat?,
+          (parseRatList? dirs).bind pairs? with
+    | some tol, some xs, some ys, some even, some [r, a, cx, cy], some dirs =>
+      regsubResp st mode tol xs ys even r a dirs cx cy
+    | _, _, _, _, _, _ => (st, "bad-op")
+  -- the VLT pupil and its quadrants; the quadrants' half-planes are computed in the model
+  | ["vlt", mode, tol, xs, ys, seg, ro, ri, spiders, se, m3] =>
+    match parseRat? tol, parseRatList? xs, parseRatList? ys, [ro, ri].mapM parseRat?,
+          (parseRatList? spiders).bind sixes?, (parseRatList? se).bind fours?, parseRatList? m3 with
+    | some tol, some xs, some ys, some [ro, ri], some sp, some se, some m3l =>
+      let m3? : Option (Option (Rat × Rat × Rat × Rat)) :=
+        match m3l with
+        | [] => some none
+        | [hx, hy, cx, cy] => some (some (hx, hy, cx, cy))
+        | _ => none
+      match m3? with
+      | none => (st, "bad-op")
+      | some m3 =>
+        let pupil := vltShape ro ri sp m3
+        if seg == "-" then evalResp st mode tol xs ys pupil else
+        match parseNat? seg with
+        | none => (st, "bad-op")
+        | some i =>
+          if se.length != 4 then (st, "bad-op") else
+          match vltSegment i (vltLines se) pupil m3 with
+          | none => (st, "err singular")
+          | some q => evalResp st mode tol xs ys q
+    | _, _, _, _, _, _, _ => (st, "bad-op")
   | ["hexqr", rings] =>
     match parseNat? rings with
     | some n => (st, "ok " ++ ";".intercalate ((hexQR n).map fun qr => s!"{qr.1},{qr.2}"))
@@ -141,13 +254,54 @@ def step (st : St) : List String → St × String
     match parseNat? nx, parseNat? ny, parseRat? tol, parseRatList? xs, parseRatList? ys, parseWhole? shape with
     | some nx, some ny, some tol, some xs, some ys, some s =>
       match ditherGrids nx ny xs ys, supersampled s nx ny xs ys with
-      | some gs, some vals =>
+      | some gs, .ok vals =>
         -- a pixel is flagged when any of its sub-samples is near a decision boundary
         let flags := gs.foldl (fun acc g => List.zipWith (fun a b => a || b) acc ((sepPoints g.1 g.2).map (near tol s)))
           (List.replicate (xs.length * ys.length) false)
         (st, s!"ok {showRatList vals} {showList showBool flags}")
+      | _, .error .zeroDiv => (st, "err zerodiv")
       | _, _ => (st, "err index")
     | _, _, _, _, _, _ => (st, "bad-op")
+  -- the statistics 'mean' | 'sum' | 'min' | 'max' of evaluate_supersampled on a separated grid
+  | "superstat" :: stat :: nx :: ny :: tol :: xs :: ys :: shape =>
+    let stat? : Option Stat :=
+      if stat == "mean" then some .mean else if stat == "sum" then some .sum
+      else if stat == "min" then some .min else if stat == "max" then some .max else none
+    match stat?, parseNat? nx, parseNat? ny, parseRat? tol, parseRatList? xs, parseRatList? ys, parseWhole? shape with
+    | some stat, some nx, some ny, some tol, some xs, some ys, some s =>
+      match ditherGrids nx ny xs ys, supersampledStat stat s nx ny xs ys with
+      | some gs, .ok vals =>
+        let flags := gs.foldl (fun acc g => List.zipWith (fun a b => a || b) acc ((sepPoints g.1 g.2).map (near tol s)))
+          (List.replicate (xs.length * ys.length) false)
+        (st, s!"ok {showRatList vals} {showList showBool flags}")
+      | _, .error .zeroDiv => (st, "err zerodiv")
+      | _, .error .attribute => (st, "err attribute")
+      | _, .error .index => (st, "err index")
+      | _, .error .value => (st, "err value")
+      | none, .ok _ => (st, "err index")
+    | _, _, _, _, _, _, _ => (st, "bad-op")
+  -- a list of generators: `C12 superlist <stat> <nx> <ny> <tol> <xs> <ys> <n> <shape 1> … <shape n>`
+  --   → ok <values 1> <near flags 1> … <values n> <near flags n>  |  err index|zerodiv|attribute|value
+  | "superlist" :: stat :: nx :: ny :: tol :: xs :: ys :: n :: shapes =>
+    match parseStat? stat, parseNat? nx, parseNat? ny, parseRat? tol, parseRatList? xs, parseRatList? ys, parseNat? n,
+          parseShapes? 64 shapes with
+    | some stat, some nx, some ny, some tol, some xs, some ys, some n, some ss =>
+      if ss.length != n then (st, "bad-op") else
+      match supersampledList stat nx ny xs ys ss with
+      | .ok fs =>
+        match ditherGrids nx ny xs ys with
+        | none => (st, "err index")
+        | some gs =>
+          let one := fun (sf : Shape × List Rat) =>
+            let flags := gs.foldl (fun acc g => List.zipWith (fun a b => a || b) acc ((sepPoints g.1 g.2).map (near tol sf.1)))
+              (List.replicate (xs.length * ys.length) false)
+            s!"{showRatList sf.2} {showList showBool flags}"
+          (st, "ok " ++ " ".intercalate ((ss.zip fs).map one))
+      | .error .zeroDiv => (st, "err zerodiv")
+      | .error .attribute => (st, "err attribute")
+      | .error .index => (st, "err index")
+      | .error .value => (st, "err value")
+    | _, _, _, _, _, _, _, _ => (st, "bad-op")
   | _ => (st, "bad-op")
 
 end HcipyVerif.Driver.C12
